@@ -40,7 +40,7 @@ Proof. exact unescape_to_bytes_escapify. Qed.
 Print Assumptions unescape_to_bytes_inverts_escapify.
 
 (* the code-point path (Tokenizer.get_string = Token.unescape, then str.encode()), still used by
-   GPOS/NSEC3/... and, before fix 83744a5, by HINFO/X25/ISDN/CAA/NAPTR: correct for ASCII only *)
+   GPOS/NSEC3/... and, before fix ae0ac04, by HINFO/X25/ISDN/CAA/NAPTR: correct for ASCII only *)
 Theorem quotedcp_roundtrip_partial : forall s,
   all_ascii s = true -> (do u <- ue_loop (escapify s) []; utf8_encode u) = Ok s.
 Proof. exact codepoint_path_ascii. Qed.
@@ -265,7 +265,7 @@ Proof. repeat split; vm_compute; reflexivity. Qed.
 (* ------------------------------------------------------------------ NID / L64 *)
 
 (* dns/rdtypes/ANY/NID.py, L64.py keep the 64-bit value as the text xxxx:xxxx:xxxx:xxxx and validate it with
-   dns.rdtypes.util.parse_formatted_hex (after fix 18da675: hexadecimal digits only).  A validated text is
+   dns.rdtypes.util.parse_formatted_hex (after fix 19725b9: hexadecimal digits only).  A validated text is
    one tokenizer word (so it is printed and read back verbatim by the schema theorem), and the text the
    constructor builds from 8 octets (from_wire) is valid. *)
 Theorem formatted_hex_text_is_word : forall t, fmthex_ok t = true -> forallb safe t = true /\ t <> [].
